@@ -10,15 +10,15 @@ import itertools
 import graphs as gr
 
 PROP = "C01"
-RULE = ("quick: every acyclic ADMG(n) and ancestral ANC(n) graph n<=3, each also with one (empty) layer absent, all "
+RULE = ("5 targeted shapes under 21 (quick) / 61 (thorough) insertion orders; quick: every acyclic ADMG(n) and ancestral ANC(n) graph n<=3, each also with one (empty) layer absent, all "
         "pairwise-disjoint (X,Y,Z) with |X|,|Y|<=2, default and one random insertion order; every DAG(4) with all such queries "
         "under two orders; every ADMG(4) and ANC(4) with all singleton X,Y and all Z under one random insertion order; "
-        "150 random graphs n<=8 with 30 random queries; cyclic directed layers n<=3 (must raise). "
-        "thorough: all of ADMG(n), ANC(n), n<=4, with the layer-absent variants, all queries |X|,|Y|<=2, two orders; 1500 random "
+        "every third DAG(5) (all in thorough) with singleton X,Y and all Z; 1500 random graphs 5<=n<=8 with 40 random queries; cyclic directed layers n<=3 (must raise). "
+        "thorough: all of ADMG(n), ANC(n), n<=4, with the layer-absent variants, all queries |X|,|Y|<=2, two orders; 6000 random "
         "graphs n<=14. distinct by (canonical graph, layers); non-trivial = some query is connected and some separated")
 EXHAUSTIVE = {"quick": "ADMG(n), ANC(n) n<=3: all disjoint X,Y,Z with |X|,|Y|<=2; DAG(4): same queries; "
-                       "ADMG(4), ANC(4): all singleton X,Y, all Z",
-              "thorough": "ADMG(n), ANC(n) n<=4, all disjoint X,Y,Z with |X|,|Y|<=2"}
+                       "ADMG(4), ANC(4): all singleton X,Y, all Z (DAG(5): one third, not exhaustive)",
+              "thorough": "ADMG(n), ANC(n) n<=4, all disjoint X,Y,Z with |X|,|Y|<=2; DAG(5): all singleton X,Y, all Z"}
 TRUSTED = ["networkx ancestors / in_edges / out_edges / neighbors / is_directed_acyclic_graph taken at face value",
            "the deque discipline and pop-time visited marking of m_separated are abstracted into a reachability closure in "
            "the model; that abstraction is what the correspondence (incl. random insertion orders) watches"]
@@ -102,8 +102,23 @@ def _case(kind, g, layers, qs, oracle, order):
     return c
 
 
+# shapes on which a wrong visited-set test (forward_visited / backward_visited confused) changes the answer, but only under
+# particular insertion orders of in_edges / neighbours: run under many orders
+TARGETED = [
+    gr.G(range(4), D=[(0, 1), (2, 1), (2, 0), (3, 0)]),
+    gr.G(range(5), D=[(0, 3), (4, 0), (3, 1), (4, 1), (2, 3)]),
+    gr.G(range(5), D=[(1, 0), (2, 3), (3, 1), (4, 1)], B=[(0, 2)]),
+    gr.G(range(5), D=[(1, 2), (3, 2), (2, 4)], B=[(0, 1), (1, 3)], U=[]),
+    gr.G(range(5), D=[(1, 2), (3, 2), (2, 4)], U=[(0, 1)]),
+]
+
+
 def gen_cases(tier, rng):
     thorough = tier != "quick"
+    for g in TARGETED:
+        qs = cached_queries(len(g["V"]), 2)
+        for o in [None] + [rng.randrange(1 << 30) for _ in range(60 if thorough else 20)]:
+            yield _case("targeted", g, ALL_LAYERS, qs, True, o)
     # --- exhaustive n <= 3 (quick) / n <= 4 (thorough): all queries, layer-absent variants, two insertion orders
     for n in range(2, (4 if thorough else 3) + 1):
         qs = cached_queries(n, 2)
@@ -125,13 +140,20 @@ def gen_cases(tier, rng):
                 if kind == "anc4s" and not g["U"]:
                     continue
                 yield _case(kind, g, ALL_LAYERS, qs1, True, rng.randrange(1 << 30))
-    # --- random larger graphs
-    for i in range(1500 if thorough else 150):
-        n = rng.randint(4, 14 if thorough else 8)
-        kinds = gr.ADMG_KINDS if rng.random() < 0.5 else gr.ANC_KINDS
-        g = gr.random_kinds_graph(rng, n, kinds, p_edge=rng.choice([0.15, 0.25, 0.4]),
+    # --- DAG(5): all singleton X, Y and all Z, one random order (quick: every third graph, offset from the seed)
+    qs5 = cached_queries(5, 1)
+    off = rng.randrange(3)
+    for i, g in enumerate(gr.enum_dag(5)):
+        if thorough or i % 3 == off:
+            yield _case("dag5s", g, ALL_LAYERS, qs5, True, rng.randrange(1 << 30))
+    # --- random larger graphs (5 nodes are needed e.g. for a collider in Z popped from the backward deque before its
+    #     second parent is reached through the forward deque)
+    for i in range(6000 if thorough else 1500):
+        n = rng.randint(5, 14) if thorough and i % 4 == 0 else rng.randint(5, 8)
+        kinds = gr.ADMG_KINDS if rng.random() < 0.6 else gr.ANC_KINDS
+        g = gr.random_kinds_graph(rng, n, kinds, p_edge=rng.choice([0.2, 0.3, 0.45]),
                                   pred=gr.ancestral_und_ok if kinds is gr.ANC_KINDS else None)
-        yield _case("rand", g, ALL_LAYERS, random_queries(rng, g["V"], 30), n <= 7, rng.randrange(1 << 30))
+        yield _case("rand", g, ALL_LAYERS, random_queries(rng, g["V"], 40), n <= 6, rng.randrange(1 << 30))
     # --- malformed: cyclic directed layer must raise
     for n in (2, 3):
         for g in gr.enum_class(n, gr.ADMG_KINDS, acyclic=False):
